@@ -146,6 +146,7 @@ func (he *HeapEnv) Merge(conds []Term, kids []*HeapState) *HeapState {
 // HavocAll returns a state in which every key is unconstrained.
 func (he *HeapEnv) HavocAll(h *HeapState) *HeapState {
 	nx := he.S.Declare("next", SInt)
+	he.S.Assert(IntLt(nx, IntConst(1<<39)))
 	he.S.Assert(IntLe(h.next, nx))
 	if he.onWrite != nil {
 		he.onWrite("*", nil)
@@ -170,11 +171,13 @@ func (he *HeapEnv) HavocKeys(h *HeapState, keys []string) *HeapState {
 // Locations.
 
 type Loc struct {
-	Prefix string
-	Ref    Term
-	Chain  []Term
-	T      types.Type
-	Root   bool // designates a whole object: convertible to a reference value
+	Prefix  string
+	Ref     Term
+	Chain   []Term
+	T       types.Type
+	Root    bool   // designates a whole object: convertible to a reference value
+	Orig    Term   // for objects embedded in another object: the enclosing object's reference ...
+	OrigKey string // ... and the field path from it
 }
 
 func objectLoc(ref Term, t types.Type) *Loc {
@@ -204,9 +207,20 @@ func embRef(ref Term, fieldKey string) Term {
 func (l *Loc) Field(i int) *Loc {
 	st := l.T.Underlying().(*types.Struct)
 	f := st.Field(i)
-	if at, ok := f.Type().Underlying().(*types.Array); ok && len(l.Chain) == 0 && !strings.Contains(l.Prefix, "[]") {
-		// embedded array: lives in the backing-array heap so that it can be sliced
-		return &Loc{Prefix: "M." + heapTypeName(at.Elem()), Ref: embRef(l.Ref, l.Prefix+"."+f.Name()), T: f.Type(), Root: true}
+	if len(l.Chain) == 0 && !strings.Contains(l.Prefix, "[]") {
+		// arrays and structs embedded in an object are modelled as objects of their own at a
+		// reference derived injectively from the enclosing object's, so that they can be sliced
+		// and pointed to.
+		base, key := l.Ref, l.Prefix+"."+f.Name()
+		if l.OrigKey != "" {
+			base, key = l.Orig, l.OrigKey+"."+f.Name()
+		}
+		switch u := f.Type().Underlying().(type) {
+		case *types.Array:
+			return &Loc{Prefix: "M." + heapTypeName(u.Elem()), Ref: embRef(base, key), T: f.Type(), Root: true, Orig: base, OrigKey: key}
+		case *types.Struct:
+			return &Loc{Prefix: "H." + heapTypeName(f.Type()), Ref: embRef(base, key), T: f.Type(), Root: true, Orig: base, OrigKey: key}
+		}
 	}
 	return &Loc{Prefix: l.Prefix + "." + f.Name(), Ref: l.Ref, Chain: l.Chain, T: f.Type()}
 }
